@@ -178,3 +178,18 @@ VX unsigned long verif_import_list(const char* path, double dimension, unsigned 
 		out[k] = v[k];
 	return v.size();
 }
+// writers (C20 round trip): the stream operations are the environment, the loops, separators, header handling and unit division are the library's
+VX void verif_export_table(const char* path, unsigned rows, unsigned cols, const double* data, unsigned ndim, const double* dims, const char* header)
+{
+	std::vector<std::vector<double>> t(rows, std::vector<double>(cols));
+	for(unsigned i = 0; i < rows; i++)
+		for(unsigned j = 0; j < cols; j++)
+			t[i][j] = data[i * cols + j];
+	std::vector<double> d(dims, dims + ndim);
+	Export_Table(std::string(path), t, d, std::string(header));
+}
+VX void verif_export_list(const char* path, unsigned n, const double* data, double dimension, const char* header)
+{
+	std::vector<double> v(data, data + n);
+	Export_List(std::string(path), v, dimension, std::string(header));
+}
